@@ -9,6 +9,7 @@ package c09
 import (
 	"encoding/json"
 	"fmt"
+	"strings"
 
 	"verifsim/core"
 	"verifsim/engine"
@@ -183,7 +184,7 @@ func Gen(caseID, tier string) (json.RawMessage, error) {
 		if s.p != nil {
 			dup := false
 			for _, q := range tp.Perturb {
-				dup = dup || q.Kind == s.p.Kind // two changes to one field can cancel
+				dup = dup || q.Kind == s.p.Kind || (strings.HasPrefix(q.Kind, "caddr") && strings.HasPrefix(s.p.Kind, "caddr")) // two changes to one field can cancel
 			}
 			if dup {
 				continue
